@@ -488,7 +488,7 @@ impl Check for C13 {
         "fault_enumeration"
     }
     fn rule(&self) -> String {
-        "differential twin runs: a generated prefix (no cancellation, deterministic transport that pends once before every read/write/flush and accepts 1 byte / all / all-but-one / 3 bytes per write) ends with one final request R in {publish QoS 1, publish QoS 2, subscribe, unsubscribe, poll, recv, drive, disconnect}; the reference executes R uncancelled and drains the connection; each variant drops R's future at await index j (every j the reference saw, optionally after 1 or 3 earlier cancelled attempts), keeps polling until idle, re-issues R if the snapshot says it was not enqueued, and drains. Decoded outbound packets (bytes included) of all connections and the delivered messages must equal the reference. Variants: the prefix may itself contain cancelled operations; with keep-alive on, the PINGREQ deadline falls right before the request or right after it (then the position of the PINGREQ is not compared); a queue-based request is followed by a QoS 0 publish; after a cancelled disconnect() the application polls first (weaker relation: nothing of the reference missing or reordered, same final DISCONNECT), or drops the handle and connects again (the next connection must lie between the run with the completed disconnect and the run without any), optionally after one more request on the closing handle (a refused request is on no connection's wire); one disconnect request in three is made again with another reason and other properties, and the run must then equal the reference that asked for the first DISCONNECT or a second reference that asked for the other one from the start. Workload given-up-request-then-refused-request: eight retained slots in use, the eighth request given up at each of its awaits, then a request that must be refused, then the end of the connection. Workload keepalive-probe-given-up-repeatedly: a PINGREQ is due while the send buffer is full, the wait that should write it is given up 1..7 times with up to several keep-alive intervals passing in between; afterwards the wire carries what the run without the stall carries. Where wire and deliveries agree and both runs ended idle, the send-state tables (retained, release, control: identifier and state) of both sessions agree as well. Non-trivial iff the cancellation happened (the future was really dropped while pending); distinct keys = (request kind, await kind, bytes-of-the-packet-already-written bucket).".into()
+        "differential twin runs: a generated prefix (no cancellation, deterministic transport that pends once before every read/write/flush and accepts 1 byte / all / all-but-one / 3 bytes per write) ends with one final request R in {publish QoS 1, publish QoS 2, subscribe, unsubscribe, poll, recv, drive, disconnect}; the reference executes R uncancelled and drains the connection; each variant drops R's future at await index j (every j the reference saw, optionally after 1 or 3 earlier cancelled attempts), keeps polling until idle, re-issues R if the snapshot says it was not enqueued, and drains. Decoded outbound packets (bytes included) of all connections and the delivered messages must equal the reference. Variants: the prefix may itself contain cancelled operations; with keep-alive on, the PINGREQ deadline falls right before the request or right after it (then the position of the PINGREQ is not compared); a queue-based request is followed by a QoS 0 publish; after a cancelled disconnect() the application polls first (weaker relation: nothing of the reference missing or reordered, same final DISCONNECT), or drops the handle and connects again (the next connection must lie between the run with the completed disconnect and the run without any), optionally after one more request on the closing handle (a refused request is on no connection's wire); one disconnect request in three is made again with another reason and other properties, and the run must then equal the reference that asked for the first DISCONNECT or a second reference that asked for the other one from the start. Workload given-up-request-then-refused-request: eight retained slots in use, the eighth request given up at each of its awaits, then a request that must be refused, then the end of the connection. Workload keepalive-probe-given-up-repeatedly: a PINGREQ is due while the send buffer is full, the wait that should write it is given up 1..7 times with up to several keep-alive intervals passing in between; afterwards the wire carries what the run without the stall carries. Workload given-up-wait-then-another-call: a wait given up in the middle of an inbound packet, then a request that is served or refused, then the rest of the packet: delivered as the uncancelled execution delivers it, i.e. exactly as the broker sent it (C04's delivery model). Where wire and deliveries agree and both runs ended idle, the send-state tables (retained, release, control: identifier and state) of both sessions agree as well. Non-trivial iff the cancellation happened (the future was really dropped while pending); distinct keys = (request kind, await kind, bytes-of-the-packet-already-written bucket).".into()
     }
     fn assumptions(&self) -> Vec<String> {
         let mut v: Vec<String> = COMMON_ASSUME.iter().map(|s| s.to_string()).collect();
@@ -497,7 +497,7 @@ impl Check for C13 {
         v
     }
     fn workloads(&self) -> Vec<Workload> {
-        vec![Workload { name: "cancel-twin", quick: 20_000, thorough: 3_000_000 }, Workload { name: "given-up-request-then-refused-request", quick: 300, thorough: 30_000 }, Workload { name: "keepalive-probe-given-up-repeatedly", quick: 600, thorough: 60_000 }]
+        vec![Workload { name: "cancel-twin", quick: 20_000, thorough: 3_000_000 }, Workload { name: "given-up-request-then-refused-request", quick: 300, thorough: 30_000 }, Workload { name: "keepalive-probe-given-up-repeatedly", quick: 600, thorough: 60_000 }, Workload { name: "given-up-wait-then-another-call", quick: 2000, thorough: 200_000 }]
     }
     fn min_nontrivial(&self, tier: Tier) -> usize {
         if tier == Tier::Quick { 300 } else { 3000 }
@@ -511,6 +511,36 @@ impl Check for C13 {
         }
         if workload == 2 {
             return probe_given_up_repeatedly(seed, verbose);
+        }
+        if workload == 3 {
+            // a wait is given up in the middle of an inbound packet and the application goes on with
+            // *another* call - a request that is served or refused - before it waits again: the
+            // uncancelled execution delivers exactly what the broker sent, so that is what the
+            // delivery model of C04 demands here
+            let mut out = CaseOut::default();
+            let mut rng = Rng::new(seed);
+            let (cfg, steps) = crate::scripts::refused_request_while_half_read_script(&mut rng, _index, tier);
+            let (log, world) = run_script(&cfg, steps, seed);
+            let w = world.borrow();
+            let t = Trace::new(&log, &w);
+            let mut inner = CaseOut::default();
+            let nt = crate::monitors::c04::check(&t, &mut inner);
+            out.evaluations += 1;
+            let given_up = log.ops.iter().any(|o| matches!(o.outcome, Outcome::CallerTimeout | Outcome::Cancelled) && matches!(o.kind, "poll" | "recv" | "drive"));
+            if given_up {
+                out.count("waits_given_up_inside_an_inbound_packet_then_another_call", 1);
+                out.nontrivial.push(hash_of(&abstract_trace(&log, &w)));
+            }
+            let _ = nt;
+            for v in inner.violations {
+                out.violations.push(viol("C13", format!("C13/given-up-wait-then-another-call/{}", v.sig.trim_start_matches("C04/")), format!("a wait was given up inside an inbound packet and another call made before the next wait: {}", v.msg)));
+            }
+            if verbose && !out.violations.is_empty() {
+                for l in render(&log, &w, 300) {
+                    println!("{}", l);
+                }
+            }
+            return out;
         }
         let mut out = CaseOut::default();
         let mut rng = Rng::new(seed);
